@@ -29,6 +29,13 @@ def plan(tier, units, leaves):
     for t1, s1, t2, s2 in special[:-1]:
         pairs.append({"id": iid, "t1": t1, "s1": s1, "t2": t2, "s2": s2, "r1": rnd.choice(REPS), "r2": rnd.choice(REPS)})
         iid += 1
+    # both operands of exactly the same Quantity type (same unit AND same rep): overload resolution may pick another candidate than
+    # for mixed types; unitless units included (the product must collapse to a raw number there)
+    for (t1, s1) in [(("leaf", "Unos"), "au::Unos"), (("leaf", "Meters"), "au::Meters"), (("leaf", "Percent"), "au::Percent"), (("div", ("leaf", "Meters"), ("leaf", "Meters")), "decltype(au::Meters{} / au::Meters{})"),
+                     (("mul", ("leaf", "Hertz"), ("leaf", "Seconds")), "decltype(au::Hertz{} * au::Seconds{})")]:
+        for r in rnd.sample(REPS, 3):
+            pairs.append({"id": iid, "t1": t1, "s1": s1, "t2": t1, "s2": s1, "r1": r, "r2": r})
+            iid += 1
     while len(pairs) < npairs:
         (t1, s1), (t2, s2) = rnd.choice(cands), rnd.choice(cands)
         if model.has_ordering_tie(("mul", t1, t2), leaves):
